@@ -110,6 +110,7 @@ func (c *clientConn) recv() error {
 			return fmt.Errorf("sid not found: %d", sid)
 		}
 
+		simYield("cc.deliver", uint64(sid))
 		ch <- result{typ: typ, data: data}
 	}
 }
@@ -163,6 +164,7 @@ func (c *clientConn) sendPacket(ctx context.Context, ch chan result, p idmarshal
 	case <-ctx.Done():
 		return 0, nil, ctx.Err()
 	case s := <-ch:
+		simYield("cc.woken", uint64(p.id()))
 		return s.typ, s.data, s.err
 	}
 }
@@ -177,6 +179,7 @@ func (c *clientConn) dispatchRequest(ch chan<- result, p idmarshaler) {
 		return
 	}
 
+	simYield("cc.send", uint64(sid))
 	if err := c.conn.sendPacket(p); err != nil {
 		if ch, ok := c.getChannel(sid); ok {
 			ch <- result{err: err}
@@ -186,6 +189,7 @@ func (c *clientConn) dispatchRequest(ch chan<- result, p idmarshaler) {
 
 // broadcastErr sends an error to all goroutines waiting for a response.
 func (c *clientConn) broadcastErr(err error) {
+	simYield("cc.bcast", 0)
 	c.Lock()
 	defer c.Unlock()
 
